@@ -35,4 +35,89 @@ theorem next_transaction_fresh (cfg : Cfg) (w : World) :
 
 example : ∃ w : World, w.infos ≠ [] := ⟨{ fs := { get := fun _ => none, dom := [], umask := 0 }, infos := [([], none)] }, by simp⟩
 
+/-!
+### C07 (second clause) / C01 ("Rollback returns nil") — link-free fragment
+
+For the OS model behind two `PrefixFS` layers, every well-formed link-free disk whose backup root
+is an empty directory, healthy filesystems (empty fault plan), every number of consecutive
+transactions and in each every finite history of covered operations (the same fragment as
+`Props.C01.rollback_restores_linkfree_partial`):
+
+* `rollback_returns_nil_linkfree_partial` — every `Rollback` returns nil;
+* `backup_clean_after_rollback_linkfree_partial` — after the last `Rollback` every entry at or
+  below the backup root is what it was before the first operation (directory timestamps erased, as
+  in C01): in particular the backup is empty again.
+
+The proof strengthens the invariant of C01 by two backup-side clauses that hold on healthy
+filesystems (`InvB`, Lemmas/InvB.lean: a key tracked with a directory's info is a directory in the
+backup; the backup holds nothing but copies of tracked originals — the latter is also a clause of
+C02), shows them preserved by every covered operation (Lemmas/TrackB.lean, Lemmas/OpsB.lean) and
+follows `Rollback` through its seven loops (Lemmas/RestoreB.lean).  Not covered (`_partial`): what
+C01's main theorem does not cover, and fault plans (after a faulted backup copy Rollback restores
+the base but reports an error, see C08).
+-/
+
+
+/-- T07.1a  Rollback returns nil — link-free fragment, healthy filesystems, any number of
+transactions: the Rollback that ends each of them reports no error. -/
+theorem rollback_returns_nil_linkfree_partial (bk kk : Key) (hbk : PKey bk) (hkk : PKey kk)
+    (hne1 : bk ≠ []) (hne2 : kk ≠ []) (hd1 : ¬ bk <+: kk) (hd2 : ¬ kk <+: bk)
+    (w : World) (hg : OSGood bk kk w.fs) (hinfos : w.infos = []) (hnf : w.faults = [])
+    (hempty : ∀ k, k ≠ [] → w.fs.get (kk ++ k) = none)
+    (txs : List (List Op))
+    (hcov : CoveredTxs (osCfg bk kk) (osSim bk kk hbk hkk hne1 hne2 hd1 hd2) w txs) :
+    ∀ pre ops post, txs = pre ++ ops :: post →
+      (rollback (osCfg bk kk) (runOps (osCfg bk kk) (pre.foldl (runTx (osCfg bk kk)) w) ops)).2 = .ok false :=
+  (txs_clean (S := osSim bk kk hbk hkk hne1 hne2 hd1 hd2) txs w hg hinfos hnf
+    (fun k hk => by show (w.fs.get (kk ++ k)).map eraseMt = none; rw [hempty k hk]; rfl) hcov).2
+
+/-- T07.1b  after Rollback the backup filesystem is exactly as it was before the transaction —
+link-free fragment, healthy filesystems, any number of transactions (directory timestamps erased
+from the comparison, as in C01). -/
+theorem backup_clean_after_rollback_linkfree_partial (bk kk : Key) (hbk : PKey bk) (hkk : PKey kk)
+    (hne1 : bk ≠ []) (hne2 : kk ≠ []) (hd1 : ¬ bk <+: kk) (hd2 : ¬ kk <+: bk)
+    (w : World) (hg : OSGood bk kk w.fs) (hinfos : w.infos = []) (hnf : w.faults = [])
+    (hempty : ∀ k, k ≠ [] → w.fs.get (kk ++ k) = none)
+    (txs : List (List Op))
+    (hcov : CoveredTxs (osCfg bk kk) (osSim bk kk hbk hkk hne1 hne2 hd1 hd2) w txs) :
+    ∀ k, ((txs.foldl (runTx (osCfg bk kk)) w).fs.get (kk ++ k)).map eraseMt = (w.fs.get (kk ++ k)).map eraseMt :=
+  fun k => congrFun (txs_clean (S := osSim bk kk hbk hkk hne1 hne2 hd1 hd2) txs w hg hinfos hnf
+    (fun k hk => by show (w.fs.get (kk ++ k)).map eraseMt = none; rw [hempty k hk]; rfl) hcov).1 k
+
+/-- in particular nothing is left below the backup root -/
+theorem backup_empty_after_rollback_linkfree_partial (bk kk : Key) (hbk : PKey bk) (hkk : PKey kk)
+    (hne1 : bk ≠ []) (hne2 : kk ≠ []) (hd1 : ¬ bk <+: kk) (hd2 : ¬ kk <+: bk)
+    (w : World) (hg : OSGood bk kk w.fs) (hinfos : w.infos = []) (hnf : w.faults = [])
+    (hempty : ∀ k, k ≠ [] → w.fs.get (kk ++ k) = none)
+    (txs : List (List Op))
+    (hcov : CoveredTxs (osCfg bk kk) (osSim bk kk hbk hkk hne1 hne2 hd1 hd2) w txs) :
+    ∀ k, k ≠ [] → (txs.foldl (runTx (osCfg bk kk)) w).fs.get (kk ++ k) = none := by
+  intro k hk
+  have := backup_clean_after_rollback_linkfree_partial bk kk hbk hkk hne1 hne2 hd1 hd2 w hg hinfos hnf
+    hempty txs hcov k
+  rw [hempty k hk] at this
+  exact Option.map_eq_none_iff.mp this
+
+/-- T07.inv  after any covered history on healthy filesystems the backup holds nothing but copies of
+tracked originals (also a clause of C02), and every tracked directory has its backup directory -/
+theorem backup_invariant_after_history (bk kk : Key) (hbk : PKey bk) (hkk : PKey kk)
+    (hne1 : bk ≠ []) (hne2 : kk ≠ []) (hd1 : ¬ bk <+: kk) (hd2 : ¬ kk <+: bk)
+    (w : World) (hg : OSGood bk kk w.fs) (hinfos : w.infos = []) (hnf : w.faults = [])
+    (hempty : ∀ k, k ≠ [] → w.fs.get (kk ++ k) = none) (ops : List Op)
+    (hcov : CoveredHist (osCfg bk kk) (osSim bk kk hbk hkk hne1 hne2 hd1 hd2) w ops) :
+    InvB (osSim bk kk hbk hkk hne1 hne2 hd1 hd2) (osView bk kk .base w.fs) (osView bk kk .backup w.fs [])
+      (runOps (osCfg bk kk) w ops) :=
+  (history_keepsB ops w (InvB.init (S := osSim bk kk hbk hkk hne1 hne2 hd1 hd2) hg hinfos hnf
+    (fun k hk => by show (w.fs.get (kk ++ k)).map eraseMt = none; rw [hempty k hk]; rfl)) hcov).inv
+
+/-- non-vacuity: the backup root `/k` of the example disk of C01 is empty -/
+example : ∀ k, k ≠ [] → exDisk.get ([['k']] ++ k) = none := by
+  intro k hk
+  cases h : exDisk.get ([['k']] ++ k) with
+  | none => rfl
+  | some n =>
+    exfalso
+    rcases exDisk_live h with ⟨e, _⟩ | ⟨e, _⟩ | ⟨e, _⟩ | ⟨e, _⟩ | ⟨e, _⟩ <;> simp at e
+    exact hk e
+
 end Props.C07
